@@ -509,6 +509,42 @@ def g2(ctx, res):
               reason="the type validator uses the bool-aware instance test")
 
 
+# ---------------------------------------------------------------------- G15
+@rule("G15", "member resolution does not depend on the insertion order of patternProperties (equality ignores it)")
+def g15(ctx, res):
+    """Element equality compares `patternProperties` as a dict, i.e. regardless of the order in which the patterns were
+    written.  Equal elements accept the same values only if a key is validated against EVERY pattern it matches; a
+    first-match look-up makes the verdict depend on the order equality ignores."""
+    gi = ctx.func("Properties.__getitem__")
+    key = gi.params[1].name
+    vb = V(ctx, gi)
+    PAT = [f"list(self.pattern.getall({key}))", f"[MV_e for MV_e in self.pattern.getall({key})]", f"self.pattern.getall({key})"]
+    all_matches = any(has(pt, vb.body) for pt in PAT)
+    first_only = []
+    for n in ast.walk(ast.Module(body=list(vb.body), type_ignores=[])):
+        if isinstance(n, ast.Subscript) and norm(n.value) == "self.pattern" and isinstance(n.ctx, ast.Load):
+            first_only.append(n)
+        if isinstance(n, ast.Call) and isinstance(n.func, ast.Attribute) and n.func.attr in ("get", "__getitem__") \
+                and norm(n.func.value) == "self.pattern":
+            first_only.append(n)
+        if isinstance(n, ast.Call) and dotted(n.func) == "next" and n.args and "self.pattern" in norm(n.args[0]):
+            first_only.append(n)
+    if first_only:
+        res.violation(gi, norm(first_only[0])[:80],
+                      reason="PatternDict.__getitem__ answers with the first matching pattern in insertion order: two equal "
+                             "elements that list the same patterns in a different order validate a name matching several "
+                             "patterns against different sub-schemas")
+    else:
+        res.judge(True if all_matches else None, gi, "pattern_elems = list(self.pattern.getall(key))",
+                  reason="a key is validated against every pattern it matches, whatever their order")
+    pd = ctx.cls("PatternDict").methods.get("getall")
+    if pd is None:
+        raise AnalysisError("PatternDict.getall vanished")
+    stops = [n for n in walk_own(pd.body) if isinstance(n, (ast.Break,)) or (isinstance(n, ast.Return) and n.value is not None)]
+    res.judge(True if not stops else None, pd, "getall yields every match",
+              reason="the generator neither breaks nor returns a value after the first match")
+
+
 # ---------------------------------------------------------------------- G3
 @rule("G3", "per-key and per-index member resolution follows the Draft-6 cases")
 def g3(ctx, res):
